@@ -164,6 +164,87 @@ QInProperty(prog) == /\ QDeclsOK(prog.regs)
                           LET s == prog.stmts[i] IN
                           QUnsupported(s) \/ (s.s = "gate" /\ s.name \in QPropNames /\ QGateStmtOK(prog.regs, s))
 
+\* ---------- extension: whole-register operands (broadcast) and user gate definitions ----------
+\* Outside the property's explicit list, but the front end (crate openqasm: type checker + Linearize at unlimited depth)
+\* accepts them, and the property's last clause applies: the result is the circuit the text denotes or an error,
+\* never a circuit with gates dropped.  What a text DENOTES is OpenQASM 2's definition:
+\*   g a, b[1], c;   with registers a, c of equal size k: k applications, the i-th to a[i], b[1], c[i]; operands of size 1
+\*                   (an indexed qubit, or a whole register of size 1) are repeated; other sizes must agree
+\*   gate nm(p1..) a1.. { body }   an application of nm is its body with the formal arguments / parameters replaced
+\* A program may carry   defs |-> << [name, np, nq, body |-> <<bstmt, ...>>], ... >>   with
+\*   bstmt: [s |-> "gate", name, param |-> <<pexpr, ...>>, args |-> <<formal argument index, ...>>]
+\*          [s |-> "barrier", args |-> <<formal index, ...>>]     [s |-> "U", args |-> <<formal index>>]
+\*   pexpr: <<k, d, f>>   the angle (k/d) * pi if f = 0, (k/d) * (formal parameter number f) otherwise
+\* and an argument of a top-level gate statement may be a whole register <<r, -1>>.
+QXDefs(prog) == IF "defs" \in DOMAIN prog THEN prog.defs ELSE <<>>
+QXDefNames(prog) == {QXDefs(prog)[i].name : i \in 1..Len(QXDefs(prog))}
+QXDef(prog, nm) == QXDefs(prog)[CHOOSE i \in 1..Len(QXDefs(prog)) : QXDefs(prog)[i].name = nm]
+QXNumParams(prog, nm) == IF nm \in QXDefNames(prog) THEN QXDef(prog, nm).np ELSE QNumParams(nm)
+QXArity(prog, nm) == IF nm \in QXDefNames(prog) THEN QXDef(prog, nm).nq ELSE QArity(nm)
+QXKnown(prog) == QDefined \cup QXDefNames(prog)
+
+\* type checking of the definitions (TypeError::RedefinedGate: the opaque prelude is part of every source; UndefinedGate,
+\* Wrong*Arity also inside bodies, whether or not the gate is ever applied)
+QXBodyStmtOK(prog, d, b) ==
+  /\ \A i \in 1..Len(b.args) : b.args[i] \in 1..d.nq
+  /\ b.s = "gate" => /\ b.name \in QXKnown(prog)
+                     /\ Len(b.param) = QXNumParams(prog, b.name) /\ Len(b.args) = QXArity(prog, b.name)
+                     /\ \A i \in 1..Len(b.param) : b.param[i][3] \in 0..d.np
+QXDefsOK(prog) ==
+  LET ds == QXDefs(prog) IN
+  /\ \A i, j \in 1..Len(ds) : i # j => ds[i].name # ds[j].name
+  /\ \A i \in 1..Len(ds) : /\ ds[i].name \notin QDefined
+                             /\ \A k \in 1..Len(ds[i].body) : QXBodyStmtOK(prog, ds[i], ds[i].body[k])
+\* type checking of a top-level gate statement (UndefinedRegister, InvalidRegisterIndex, WrongOperandSize)
+QXRefOK(regs, a) == a[1] \in 1..Len(regs) /\ (a[2] = -1 \/ (a[2] >= 0 /\ a[2] < regs[a[1]].size))
+QXArgSize(regs, a) == IF a[2] = -1 THEN regs[a[1]].size ELSE 1
+QXStmtTyped(prog, s) ==
+  /\ s.name \in QXKnown(prog) /\ Len(s.param) = QXNumParams(prog, s.name) /\ Len(s.args) = QXArity(prog, s.name)
+  /\ \A i \in 1..Len(s.args) : QXRefOK(prog.regs, s.args[i])
+  /\ \A i, j \in 1..Len(s.args) : LET a == QXArgSize(prog.regs, s.args[i])  b == QXArgSize(prog.regs, s.args[j]) IN (a > 1 /\ b > 1) => a = b
+QXTyped(prog) == /\ QDeclsOK(prog.regs) /\ QXDefsOK(prog)
+                 /\ \A i \in 1..Len(prog.stmts) : prog.stmts[i].s = "gate" => QXStmtTyped(prog, prog.stmts[i])
+
+\* broadcast of one typed gate statement: its applications on indexed references, in order
+QXWidth(regs, s) == Max({QXArgSize(regs, s.args[i]) : i \in 1..Len(s.args)})
+QXArgAt(regs, a, k) == IF a[2] = -1 THEN <<a[1], IF regs[a[1]].size = 1 THEN 0 ELSE k>> ELSE a
+QXBroadcast(regs, s) == [k \in 1..QXWidth(regs, s) |-> [s EXCEPT !.args = [i \in 1..Len(s.args) |-> QXArgAt(regs, s.args[i], k - 1)]]]
+\* inlining of an application on indexed references (fuel bounds the nesting: definitions cannot be recursive)
+QXEval(pe, actual) == IF pe[3] = 0 THEN <<pe[1], pe[2]>> ELSE <<pe[1] * actual[pe[3]][1], pe[2] * actual[pe[3]][2]>>
+RECURSIVE QXInline(_, _, _)
+QXInline(prog, s, fuel) ==
+  IF s.s # "gate" \/ s.name \notin QXDefNames(prog) THEN <<s>>
+  ELSE IF fuel = 0 THEN <<[s |-> "toodeep", args |-> <<>>]>>
+  ELSE LET d == QXDef(prog, s.name)
+           inst(b) == IF b.s = "gate"
+                      THEN [s |-> "gate", name |-> b.name, param |-> [i \in 1..Len(b.param) |-> QXEval(b.param[i], s.param)],
+                            args |-> [i \in 1..Len(b.args) |-> s.args[b.args[i]]]]
+                      ELSE [s |-> b.s, args |-> [i \in 1..Len(b.args) |-> s.args[b.args[i]]]]
+       IN Flatten([k \in 1..Len(d.body) |-> QXInline(prog, inst(d.body[k]), fuel - 1)])
+QXExpandStmt(prog, s) ==
+  IF s.s # "gate" THEN <<s>>
+  ELSE LET bs == QXBroadcast(prog.regs, s) IN Flatten([k \in 1..Len(bs) |-> QXInline(prog, bs[k], Len(QXDefs(prog)) + 1)])
+\* the program over opaque gates / CX / the unsupported statements that the text denotes
+QXExpand(prog) == Flatten([i \in 1..Len(prog.stmts) |-> QXExpandStmt(prog, prog.stmts[i])])
+QParseX(prog) ==
+  IF ~QXTyped(prog) THEN [res |-> "err"]
+  ELSE LET r == QParse([regs |-> prog.regs, ncb |-> prog.ncb, stmts |-> QXExpand(prog)]) IN
+       \* the qubit count comes from the declarations whatever the statements expand to
+       IF r.res = "err" THEN r ELSE [r EXCEPT !.circ.n = QSumSizes(prog.regs)]
+\* where the property's explicit clause applies: an undefined gate name anywhere in the text, or a well-typed text that
+\* applies barrier / reset / a conditional / U (at top level or through the body of an applied gate)
+QXUsesUndefined(prog) ==
+  \/ \E i \in 1..Len(prog.stmts) : prog.stmts[i].s = "gate" /\ prog.stmts[i].name \notin QXKnown(prog)
+  \/ \E i \in 1..Len(QXDefs(prog)) : \E k \in 1..Len(QXDefs(prog)[i].body) :
+        LET b == QXDefs(prog)[i].body[k] IN b.s = "gate" /\ b.name \notin QXKnown(prog)
+QXMustErr(prog) ==
+  \/ QXUsesUndefined(prog)
+  \/ QXTyped(prog) /\ \E i \in 1..Len(QXExpand(prog)) : QXExpand(prog)[i].s \in {"barrier", "reset", "if", "U"}
+QXHasBroadcast(prog) == \E i \in 1..Len(prog.stmts) : prog.stmts[i].s = "gate" /\ \E k \in 1..Len(prog.stmts[i].args) : prog.stmts[i].args[k][2] = -1
+QXAppliesDef(prog) == \E i \in 1..Len(prog.stmts) : prog.stmts[i].s = "gate" /\ prog.stmts[i].name \in QXDefNames(prog)
+\* GType::num_qubits: the fixed arity of a kind, -1 for the kinds without one
+QKindNumQubits(t) == IF t \in {"ParityPhase", "UnknownGate"} THEN -1 ELSE QKindArity(t)
+
 \* ---------- conversion from the harness's JSON ----------
 QGateFromAbs(j) == [t |-> j.t, qs |-> j.qs, ph |-> j.ph, vars |-> j.vars]
 QCircFromAbs(j) == [n |-> j.n, gates |-> [i \in 1..Len(j.gates) |-> QGateFromAbs(j.gates[i])]]
